@@ -1,5 +1,5 @@
 (* C04 driver.  case:  ctl.s|ctl.c g=<0|1> cr=<n> b=<u|n> ev=<e1,e2,...>
-   events: U<id>  <id>:c:<hex>  <id>:F  <id>:R<code>  G<n>  W<id>:<k>  W*:<k>  P
+   events: U<id>  <id>:c:<hex>  <id>:F  <id>:R<code>  G<n>  W<id>:<k>  W*:<k>  <id>:Z<n>  <id>:S<code>  P
    prints  <model line> | <spec line>
    model:  <pending|ok none|err c:<code>:Local|panic n|indet|outside> at= ph= close= stops= opened= fins= set= closing= req= handed= acted=
    spec :  hard=<codes|-> soft=<codes|-> acted=<..|-> exact=<0|1> any=<0|1> stops=<ids|-> set=<bits, * = free> closing=<0|1> *)
@@ -25,6 +25,10 @@ let parse_event (s : string) : wev =
     | [id; "F"] -> EArrive (n_of_string id, Fin)
     | [id; r] when String.length r > 1 && r.[0] = 'R' ->
         EArrive (n_of_string id, Abort (QTerminated (n_of_string (String.sub r 1 (String.length r - 1)))))
+    | [id; r] when String.length r > 1 && r.[0] = 'Z' ->
+        EFinPend (n_of_string id, n_of_string (String.sub r 1 (String.length r - 1)))
+    | [id; r] when String.length r > 1 && r.[0] = 'S' ->
+        EPeerStop (n_of_string id, n_of_string (String.sub r 1 (String.length r - 1)))
     | _ -> failwith ("bad event " ^ s) end
 
 let opt_n = function None -> "-" | Some x -> string_of_n x
@@ -100,17 +104,8 @@ let handle ws = match ws with
       let evs = List.map parse_event (List.filter (fun s -> s <> "" && s <> "-") (String.split_on_char ',' (kv ws "ev="))) in
       let d0 = new_drv (if client then RClient else RServer) grease false cr b in
       let d = run_history evs d0 in
-      (* a server whose accept() answered None (peer GOAWAY, nothing in flight) is not polled again: the
-         specification is asked about what had been delivered when that poll was made *)
-      let evs_seen = (match d.d_res, d.d_at with
-        | RNone, Some k ->
-            let k = int_of_n k in
-            let rec upto n = function
-              | [] -> []
-              | EPoll :: r -> if n + 1 = k then [EPoll] else EPoll :: upto (n + 1) r
-              | e :: r -> e :: upto n r in
-            upto 0 evs
-        | _ -> evs) in
-      model_line client d ^ " | " ^ spec_line client evs_seen
+      (* blocked: the model's driver is still being built or waits for its own control stream to take the last GOAWAY;
+         what the peer sent is then not looked at yet (delayed, not lost) and the liveness obligations do not apply *)
+      model_line client d ^ " | " ^ spec_line client evs ^ (if blocked d then " blocked=1" else " blocked=0")
   | _ -> "driver-error unknown-case"
 let () = run_lines handle
